@@ -22,8 +22,8 @@ func init() {
 
 func init() {
 	register("C06", []string{"./constraint/..."}, func(p *Prog, r *Report) {
-		r.Engines = []string{"gate(GATE-SOLVE,GATE-CODEC)", "coeffid(COEFF-SWITCH,COEFF-TABLE)", "solver(SOLVE-R1C, SOLVE-RUN)", "sibling"}
-		r.Explanation = "Static analysis of the solver. Decided: (GATE-SOLVE) for every accepting path of the Solve method of the four sparse-gate blueprints, the value assigned to the unsolved wire makes the gate polynomial qL·xa+qR·xb+qM·xa·xb+qO·xc+qC (wires and coefficients as Decompress defines them) vanish identically as a rational function, or the path tested exactly that polynomial for zero (symbolic interpretation of the syntax tree; the only exemption is the documented commitment-constraint skip); (GATE-CODEC) Compress / Decompress / CalldataSize of each gate agree word by word; (COEFF-SWITCH/TABLE) the special-coefficient fast paths of computeTerm / accumulateInto / divByCoeff in the 10 solver packages equal the table path; (SOLVE-R1C) in solveR1C every nil return passes either the a·b==c comparison or a computation of the single unsolved wire followed by solver.set, and (SOLVE-RUN) solver.run returns nil only after comparing the number of solved wires with the number of wires; (EFF-DCL) no solver-side method pre-checks outside its mutex a field it writes under it (the lookup-table cache is consulted by parallel workers); sibling agreement of the generated solver packages. NOT decided: the level partition for arbitrary instruction mixes, results of hint functions, the R1C division formulas themselves (field arithmetic of wire = c/b - a), scheduling."
+		r.Engines = []string{"gate(GATE-SOLVE,GATE-CODEC)", "coeffid(COEFF-SWITCH,COEFF-TABLE)", "solver(SOLVE-R1C, SOLVE-RUN)", "outdef(OUT-DEF)", "effects(EFF-RESET,EFF-DCL)", "sibling"}
+		r.Explanation = "Static analysis of the solver. Decided: (GATE-SOLVE) for every accepting path of the Solve method of the four sparse-gate blueprints, the value assigned to the unsolved wire makes the gate polynomial qL·xa+qR·xb+qM·xa·xb+qO·xc+qC (wires and coefficients as Decompress defines them) vanish identically as a rational function, or the path tested exactly that polynomial for zero (symbolic interpretation of the syntax tree; the only exemption is the documented commitment-constraint skip); (GATE-CODEC) Compress / Decompress / CalldataSize of each gate agree word by word; (COEFF-SWITCH/TABLE) the special-coefficient fast paths of computeTerm / accumulateInto / divByCoeff in the 10 solver packages equal the table path; (SOLVE-R1C) in solveR1C every nil return passes either the a·b==c comparison or a computation of the single unsolved wire followed by solver.set, and (SOLVE-RUN) solver.run returns nil only after comparing the number of solved wires with the number of wires; (EFF-DCL) no solver-side method pre-checks outside its mutex a field it writes under it (the lookup-table cache is consulted by parallel workers); sibling agreement of the generated solver packages. (OUT-DEF) every Decompress* method of the blueprints assigns every field of the reused scratch object (R1C.L/R/O, every SparseR1C field, HintMapping.HintID/Inputs/OutputRange) on every path, so no term of the previously decoded instruction survives; (EFF-RESET) in (*system).Solve the stateful-blueprint Reset loop precedes solver.run on every path, so a failed solve cannot poison the next one; NOT decided: the level partition for arbitrary instruction mixes, results of hint functions, the R1C division formulas themselves (field arithmetic of wire = c/b - a), scheduling."
 		r.RuleText = "one obligation per accepting path of each gate Solve, per calldata word, per (switch, id), per nil return of solveR1C/run; nontrivial = an identity or must-pass witness was checked"
 		r.Assumptions = []string{"Solver interface methods GetValue(c,v)=coeff[c]*value[v], GetCoeff, Add, Sub, Mul, Neg, Inverse have their arithmetic meaning"}
 		RunGateBlueprints(p, r)
@@ -32,6 +32,14 @@ func init() {
 		RunSolveR1C(p, r)
 		RunDoubleChecked(p, r, func(pkg string) bool { return strings.HasPrefix(pkg, modPath+"/constraint") })
 		RunSibling(p, r, "C06")
+		RunOutDef(p, r)
+		r.RequireMin("OUT-DEF", 20)
+		if ee, err := newEffEngine(p, BuildCallGraph(p)); err != nil {
+			r.Fail("UNRESOLVED", "-", "-", "rules", "-", err.Error())
+		} else {
+			ee.RunResetOrder(r)
+			r.RequireMin("EFF-RESET", 7)
+		}
 		r.RequireMin("GATE-SOLVE", 7)
 		r.RequireMin("GATE-CODEC", 15)
 		r.RequireMin("COEFF-SWITCH", 80)
